@@ -137,6 +137,25 @@ func TestDeadlockReported(t *testing.T) {
 	}
 }
 
+func TestFinishedAt(t *testing.T) {
+	s := New(3, Options{})
+	tr, err := s.Run([]int{1, 1, 2}, func(i int) {
+		if i == 0 {
+			return // no step at all
+		}
+		s.Point("a")
+		if i == 1 {
+			s.Point("b")
+		}
+	})
+	if err != nil {
+		t.Fatal(err)
+	}
+	if fmt.Sprint(tr.FinishedAt) != "[0 2 3]" || fmt.Sprint(tr.Chosen()) != "[1 1 2]" {
+		t.Fatalf("%v %v", tr.FinishedAt, tr.Chosen())
+	}
+}
+
 func TestPanicRecorded(t *testing.T) {
 	s := New(2, Options{})
 	tr, err := s.Run(nil, func(i int) {
